@@ -1,6 +1,6 @@
 #!/bin/bash
 # recheck_seed.sh <name>  — re-run the (strengthened) quick check against an already confirmed seed
-NAME=$1; PROP=${NAME%-*}
+NAME=$1; PROP=${NAME%%-*}
 WT=/tmp/recheck-$NAME; OUT=/verif/seeded/$NAME
 git -C /repo worktree remove --force $WT >/dev/null 2>&1
 git -C /repo worktree add -f $WT HEAD >/dev/null 2>&1 || exit 2
